@@ -10,8 +10,11 @@ CHECK = dict(
     ],
     parallel_runs=2,
     floor={"asan-tbb:directed_realised": 20, "plain-tbb:directed_realised": 20,
-           "asan-tbb:bodies_observed": 100, "plain-internal:bodies_observed": 100, "plain-omp:bodies_observed": 100},
+           "asan-tbb:bodies_observed": 100, "plain-internal:bodies_observed": 100, "plain-omp:bodies_observed": 100,
+           "plain-tbb:default_launch_scenarios": 20, "plain-internal:default_launch_scenarios": 20},
     assumptions=[
+        "default launch method: up to 4 loops alive at once over tasking systems of 0 (not initialised), 1..4 and 6 threads; with 6 threads "
+        "each loop may take one of the 5 workers",
         "interleavings between two hook points are not distinguished",
         "R2 (no lost wake-up) is bounded liveness: 5 s watchdog, must reproduce on an immediate re-run",
         "TASK launch is exercised on TBB, OpenMP and the internal backend (the serial debug backend runs schedule() synchronously)",
